@@ -12,7 +12,7 @@ static rc::Gen<Case> genCase() {
         size_t n = *rc::gen::inRange<size_t>(0, 501);
         size_t size = c.size;
         c.ops = *rc::gen::container<std::vector<Op>>(n, rc::gen::exec([size]() {
-            int k = *rc::gen::weightedElement<int>({{6, ADD}, {5, CONSUME}, {4, ATMOST}, {3, REWIND}, {1, RESET}, {1, CLEAR}, {1, REPEAT}, {1, QUERY}});
+            int k = *rc::gen::weightedElement<int>({{6, ADD}, {5, CONSUME}, {4, ATMOST}, {3, REWIND}, {1, RESET}, {1, CLEAR}, {1, REPEAT}, {1, QUERY}, {1, SETBAD}});
             // operands: mostly small, sometimes around the size
             size_t n = *rc::gen::weightedOneOf<size_t>({{6, vprc::uni<size_t>(0, 8)}, {2, vprc::uni<size_t>(0, size + 1)}, {size > 64 ? 3 : 0, rc::gen::map(vprc::uni<size_t>(0, 4), [size](size_t d) { return size / 2 + d; })}, {(k == CONSUME || k == ATMOST) ? 1 : 0, rc::gen::map(vprc::uni<size_t>(0, 70), [](size_t d) { return (size_t)SIZE_MAX - d; })}});
             return Op{k, n};
